@@ -28,7 +28,7 @@ def EXHAUSTIVE(tier):
 def plan(tier, seed):
     n = 16
     specs = [{'mode': 'letters', 'lo': LIMIT4 * i // 4, 'hi': LIMIT4 * (i + 1) // 4} for i in range(4)]
-    per = 3 if tier == 'quick' else 80
+    per = 8 if tier == 'quick' else 80
     specs += [{'mode': 'paste', 'n': per} for _ in range(11 if tier == 'quick' else 56)]
     specs += [{'mode': 'api', 'n': 60 if tier == 'quick' else 1500} for _ in range(1 if tier == 'quick' else 4)]
     return specs
